@@ -153,6 +153,35 @@ def ensure_facts(repo=REPO, verbose=True):
         return fd, st
 
 
+FP_TABLE = os.path.join(VERIF, "tables", "fn_fingerprints.json")
+_DEFID = None
+
+
+def _norm_sig(sig, own):
+    import re
+
+    sig = re.sub(r"DefId\([^)]*\)", "D", sig or "")
+    return sig.replace(own.rsplit("::", 1)[-1], "@")
+
+
+def fn_fingerprint(facts, path):
+    """(normalised signature, set of callee paths of the function family) - what identifies a function
+    independently of its own name."""
+    callees = set()
+    for q in facts.family(path):
+        b = facts.body(q)
+        if b is None:
+            continue
+        for blk in b["blocks"]:
+            t = blk["t"]
+            if t["k"] == "call" and "f" in t:
+                c = t.get("rf") or t["f"]
+                if not c.startswith(path):
+                    callees.add(c)
+    m = facts.fn_meta(path) or {}
+    return _norm_sig(m.get("sig", ""), path), callees
+
+
 class Crate:
     """Lazy view of one crate's fact files."""
 
@@ -174,6 +203,22 @@ class Crate:
         self._cache = {}
         self._meta = None
         self._fdir = fdir
+        self._sub = None  # compiled rename normalisation (see Facts.normalise_renames)
+
+    def set_renames(self, rx, table):
+        """Re-key the index and rewrite every occurrence of a renamed path while loading."""
+        self._sub = (rx, table)
+        fix = lambda p: rx.sub(lambda m: table[m.group(0)], p)  # noqa: E731
+        self.index = {fix(p): v for p, v in self.index.items()}
+        self.order = [fix(p) for p in self.order]
+        self._cache = {}
+        self._meta = None
+
+    def _rewrite(self, raw):
+        if self._sub is None:
+            return raw
+        rx, table = self._sub
+        return rx.sub(lambda m: table[m.group(0)], raw)
 
     def body(self, path):
         b = self._cache.get(path)
@@ -182,7 +227,7 @@ class Crate:
             if ent is None:
                 return None
             self._fh.seek(ent[0])
-            b = json.loads(self._fh.read(ent[1]))
+            b = json.loads(self._rewrite(self._fh.read(ent[1]).decode()))
             b["crate"] = self.name
             self._cache[path] = b
         return b
@@ -190,7 +235,7 @@ class Crate:
     @property
     def meta(self):
         if self._meta is None:
-            self._meta = json.load(open(os.path.join(self._fdir, self.name + ".meta.json")))
+            self._meta = json.loads(self._rewrite(open(os.path.join(self._fdir, self.name + ".meta.json")).read()))
         return self._meta
 
 
@@ -200,6 +245,62 @@ class Facts:
         self.info = info or {}
         self.crates = {c: Crate(fdir, c) for c in CRATES}
         self.loaded_bodies = 0
+        self.renames = {}  # current name -> name on the reference tree
+        if os.environ.get("LUMINA_NO_RENAMES") != "1":
+            self.normalise_renames()
+
+    # ---------------------------------------------------------------- rename normalisation
+    def fn_paths(self, crate):
+        return [f["path"] for f in self.crates[crate].meta["fns"]]
+
+    def normalise_renames(self):
+        """Rule tables name functions as they are called on the reference tree. A function that
+        was merely *renamed* (same module / impl, same signature and callees) is analysed under
+        its reference name, so that a rename is not reported as a missing anchor. Functions that
+        have no counterpart stay missing (the rules then fail closed)."""
+        import re
+
+        if not os.path.exists(FP_TABLE):
+            return
+        table = json.load(open(FP_TABLE))
+        found = {}
+        for c in CRATES:
+            ref = table.get(c)
+            if not ref:
+                continue
+            cur = set(self.fn_paths(c))
+            missing = [p for p in ref if p not in cur]
+            if not missing:
+                continue
+            new = [p for p in cur if p not in ref]
+            fps = {}
+            for old in missing:
+                parent = old.rsplit("::", 1)[0]
+                cands = [n for n in new if n.rsplit("::", 1)[0] == parent and n not in found]
+                scored = []
+                for n in cands:
+                    if n not in fps:
+                        fps[n] = fn_fingerprint(self, n)
+                    sig, cal = fps[n]
+                    rsig, rcal = ref[old]["sig"], set(ref[old]["callees"])
+                    # calls to other renamed functions do not count against the match
+                    rcal2 = {x for x in rcal if x not in missing}
+                    cal2 = {x for x in cal if x not in new}
+                    union = len(rcal2 | cal2)
+                    jac = (len(rcal2 & cal2) / union) if union else 1.0
+                    same_sig = sig == rsig
+                    if jac >= 0.6 or (same_sig and jac >= 0.3) or (same_sig and union <= 2):
+                        scored.append((jac + (0.5 if same_sig else 0.0), n))
+                scored.sort(reverse=True)
+                if scored and (len(scored) == 1 or scored[0][0] - scored[1][0] > 0.1):
+                    found[scored[0][1]] = old
+        if not found:
+            return
+        self.renames = found
+        rx = re.compile("|".join(re.escape(n) for n in sorted(found, key=len, reverse=True)) .join(["(?:", ")(?![A-Za-z0-9_])"]))
+        for c in CRATES:
+            self.crates[c].set_renames(rx, found)
+        self.info = dict(self.info, renames=found)
 
     def crate_of(self, path):
         # local paths are crate-qualified: `celestia_types::x`, `<celestia_types::A as B>::m`
